@@ -54,7 +54,7 @@ func genKeys(t *rapid.T) []h.Hex {
 	if mode == "short" {
 		maxLen = 3
 	}
-	n := rapid.IntRange(1, 10).Draw(t, "nKeys")
+	n := rapid.IntRange(1, 12).Draw(t, "nKeys")
 	var keys []h.Hex
 	for len(keys) < n {
 		if len(keys) == 0 {
@@ -104,7 +104,7 @@ func genTrieCase(t *rapid.T) TrieCase {
 		"get", "get", "hash", "hash", "commit", "commit", "flush", "cap", "reopen", "reopendisk", "gc",
 		"prove", "prove", "prove", "iter", "seek", "copy",
 	}
-	n := rapid.IntRange(1, 40).Draw(t, "nOps")
+	n := rapid.IntRange(1, 48).Draw(t, "nOps")
 	for i := 0; i < n; i++ {
 		op := TrieOp{Op: rapid.SampledFrom(kinds).Draw(t, "op"), K: rapid.IntRange(0, len(c.Keys)-1).Draw(t, "k")}
 		switch op.Op {
